@@ -318,11 +318,11 @@ Proof.
   intros [[a1 a2] a3] [[b1 b2] b3]. cbn. rewrite !andb_true_iff, !N.eqb_eq. split; [intros [[-> ->] ->]; reflexivity|intro E; injection E as -> -> ->; repeat split].
 Qed.
 
-(* the executable instance used by the correspondence check *)
-Lemma monitor_zero_on_model (compact : bool) (ops : list op) (kv : list kvent) :
+(* the executable instance used by the correspondence check: the refinement part
+   of the monitor (the retry clause needs the soundness of the filter: Proof/MsgStore_C08.v) *)
+Lemma spec_run_on_model (compact : bool) (ops : list op) :
   Forall op_okb ops ->
-  C07_monitor (C07Case compact (entries ops (snd (xrun compact ops))) kv) = 0.
+  spec_run as_init (entries ops (snd (xrun compact ops))) = true.
 Proof.
-  intro H. unfold C07_monitor. cbn [c_steps]. unfold xrun, xinit.
-  rewrite (model_satisfies_monitor xfilter [] x_may x_add compact ops H). reflexivity.
+  intro H. unfold xrun, xinit. apply (model_satisfies_monitor xfilter [] x_may x_add compact ops H).
 Qed.
